@@ -1,6 +1,7 @@
 import BS.Model.KV
 import BS.Model.Table
 import BS.Model.Merge
+import BS.Model.MergeErr
 import BS.Model.Part
 import Driver.C17
 namespace Driver.C09
@@ -108,6 +109,24 @@ def run10 (c obs : String) : String × String × Bool :=
     if dirs != "0" then (model, s!"spill files outlive the reader's creation (spilldirs={dirs})", false) else
     let (o, s) := C17.judge kind failing false want body
     if !s then (model, o, false) else
+    -- a failing input of the reduce-merge: exactly the rows `BS.Merge.ereduce` delivers before it reports the error
+    let scripts := (rest.map words).filter (fun ws => ws.head? == some "IN") |>.map fun ws =>
+      (ws.dropWhile (· ≠ "SCRIPT")).drop 1
+    let goodOf (sc : List String) : Option Nat :=
+      let pre := sc.takeWhile fun t => t != "err" && t != "tmp"
+      if pre.length == sc.length then none
+      else some ((pre.map fun t => toNat! (if t.endsWith "e" then (t.dropEnd 1).toString else t)).sum)
+    let strictIn := ups.all fun s => (s.zip (s.drop 1)).all fun (a, b) => a.1 < b.1
+    if kind == "reduce" && failing && strictIn then
+      let ess : List BS.Merge.ES := (ups.zip (scripts ++ List.replicate ups.length [])).map fun (rows, sc) =>
+        match goodOf sc with
+        | some g => if g < rows.length then ⟨rows.take g, true⟩ else ⟨rows, false⟩
+        | none => ⟨rows, false⟩
+      let r := BS.Merge.ereduce (· + ·) (ups.flatten.length + 1) ess
+      let gotRows := ((((body.splitOn " | ").getD 1 "").drop 5).toString.splitOn ";").filter (· ≠ "")
+      let m2 := "rows=" ++ joinWith ";" (r.1.map showKV) ++ (if r.2 then " | error" else " | eof")
+      if r.2 && gotRows != r.1.map showKV then (m2, "ok", false) else (m2, "ok", true)
+    else
     -- key order
     let got := ((((body.splitOn " | ").getD 1 "").drop 5).toString.splitOn ";").filter (· ≠ "")
     let gotKeys := got.map fun r => toInt! ((splitOn1 r ',').headD "0")
